@@ -25,7 +25,7 @@ def self_like(f, args):
 def selected(prog, ign, inst_first):
     """the ignore specification, decomposed (from the property text: names, positional indices, '*', '**', instance)"""
     names = set(i for i in ign if isinstance(i, str))
-    idx = set(i for i in ign if isinstance(i, int) and not isinstance(i, bool))
+    idx = set(i for i in ign if isinstance(i, int) and not isinstance(i, bool) and i >= 0)      # (a negative index is no position)
     # positional-or-keyword parameters still open in a call: the underlying ones minus the bound instance
     # minus those consumed by the partial's positionals
     under = sk.pnames(prog)
@@ -187,6 +187,13 @@ def run_program(tier, idx, prog=None, plan=None, seed=None, kms=None):
                     group = [('base', [t], {}), ('tailkw', list(t), {})]
                     args = [t]
                     tags['spread-pair'] += 1
+                    if (idx + ci) % 2:
+                        # positionals whose texts run together to the same text: (1, 23) (12, 3) (1, 2, 3) (123) and ('ab', 'c') ('a', 'bc')
+                        # - different calls: an encoder has to keep the boundaries between the items
+                        alts = r.choice([[[1, 23], [12, 3], [1, 2, 3], [123]], [['ab', 'c'], ['a', 'bc'], ['abc']], [[1.5, 2], [1.0, 52], [1, 0.52]]])
+                        group = [('base', alts[0], {})] + [('tailkw', a_, {}) for a_ in alts[1:]]
+                        args = alts[0]
+                        tags['resplit-pair'] += 1
                 # typed clause: ==-equal values of different type (1, 1.0, True), also swapped across two
                 # parameters with the keywords spelled in the opposite order
                 a4, k4 = list(args), dict(kw)
@@ -219,7 +226,8 @@ def run_program(tier, idx, prog=None, plan=None, seed=None, kms=None):
                 tags[gkind] += 1
                 rec = dict(ci=ci, gkind=gkind, ign=[repr(i) for i in ign], args=[repr(x) for x in a], kw={n: repr(v) for n, v in k.items()})
                 sl = self_like(f, a)
-                ignj = [({'i': i} if isinstance(i, int) and not isinstance(i, bool) else {'n': I(i)}) for i in ign]
+                # (a negative integer is an int - not a name - and no position of `enumerate`: the model's third constructor)
+                ignj = [(({'i': i} if i >= 0 else {'neg': -i - 1}) if isinstance(i, int) and not isinstance(i, bool) else {'n': I(i)}) for i in ign]
                 call = dict(ign=ignj, args=[I(x) for x in a], kwds=[[I(n), I(v)] for n, v in k.items()], selfLike=sl)
                 # --- _keygen
                 try:
